@@ -138,7 +138,7 @@ ERROR_MAPPING = {
 # 000030    Korean Character Set
 ECI_ASSIGNMENT_NUM = {
     # Codecs name (``codecs.lookup(some-charset).name``) -> ECI designator
-    'cp437': 1,
+    'cp437': 2,
     'iso8859-1': 3,
     'iso8859-2': 4,
     'iso8859-3': 5,
